@@ -203,8 +203,9 @@ def decomp (c : Case) : Verdict :=
     -- decoder-independent cases: an intact stream of the 479-byte certificate message (the model only needs
     -- its length; `certOk` = "the whole certificate message is there")
     let exact := (content = "cert" ∨ content = "bomb") ∧ body = "good"
-    -- (the model only needs the stream's length: cap the replica, verdicts depend on comparisons with decl ≤ 2^24)
-    let (mres, malloc) := decompress adv m (some (List.replicate (min plain 17000000) 0))
+    -- (the model only needs the stream's length; beyond decl + 1 every length gives the same verdict, so the replica
+    -- is capped there)
+    let (mres, malloc) := decompress adv m (some (List.replicate (min plain (decl + 2)) 0))
       (fun out => content = "cert" && out.length == plain)
     let rstr : DecompRes → String
       | .unadvertised => "unadvertised" | .tooLarge => "toolarge" | .unsupported => "unsupported"
@@ -242,6 +243,24 @@ def conn (c : Case) : Verdict :=
   -- D18 monitor on the wire path
   if (o.nat "decl").getD 0 ≥ 4194304 ∧ o.getD "allocge" "0" = "1" ∧ stage = "hs:decompress" then
     .propFail s!"{tag0},{stage}" s!"alloc-from-declared-length decl={(o.nat "decl").getD 0} limit={maxHandshakeCert}"
+  else
+  -- PSK branches: hostile pre_shared_key selections / HelloRetryRequests against injected identities
+  let hserr := o.getD "hserr" "-"
+  let nids := (o.nat "nids").getD 0
+  let st : PskState := ⟨nids, if o.getD "sess" "0" = "1" then some ⟨true, true⟩ else none⟩
+  let pskTag := s!"psk={i.getD "psk" (if i.getD "warm" "0" = "1" then "real" else "none")},nids={nids},sess={o.getD "sess" "0"}"
+  let alertName : Nat → String := fun a => if a = 80 then "internal_error" else "invalid_psk"
+  if hserr = "prepare" then .ok s!"{pskTag},prepare-refused" else
+  if mutN = "shpsk" ∧ hit ∧ i.getD "hrr" "0" = "0" ∧ o.getD "neg" "-" = "13" ∧ (o.nat "nids").isSome then
+    let idx := ((((i.getD "mut" "").splitOn ":").getD 1 "0").toNat?).getD 0
+    match pskServerHello st (some idx) with
+    | .abort a => cmp s!"{pskTag},shpsk,abort-{alertName a}" hserr (alertName a)
+    | .panic => .diff s!"{pskTag},shpsk" "model-panic"
+    | _ => .ok s!"{pskTag},shpsk,session-used,{stage}"
+  else if i.getD "hrr" "0" = "1" ∧ nids > 0 ∧ o.getD "sess" "0" = "0" ∧ (!changed ∨ mutN = "cookie") ∧ o.getD "srv" "-" ≠ "-" then
+    match pskHelloRetry st with
+    | .abort a => cmp s!"{pskTag},hrr,abort-{alertName a}" hserr (alertName a)
+    | _ => .diff s!"{pskTag},hrr" "model: abort"
   else
   if !hit ∨ !changed then
     -- nothing was changed: a well-formed flight must be accepted (except the known HRR incompatibilities)
@@ -446,6 +465,10 @@ def hrrFam (c : Case) : Verdict :=
   match o.nat "hellos", o.nat "len1", o.nat "len2", o.nats "e1", o.nats "e2" with
   | some hellos, some len1, some len2, some e1, some e2 =>
     let pre := e1.contains 44
+    -- a FakePreSharedKeyExtension that is part of the *spec* does not populate Hello.PskIdentities (nIds = 0 for the
+    -- PSK block of processHelloRetryRequest): the second hello is built, and the cookie must stay clear of the
+    -- last two extensions (psk_key_exchange_modes, pre_shared_key) — `cookie_keeps_last_two`
+    let pskT := if e1.contains 41 then ",psk-in-spec" else ""
     if hellos < 2 then .ok s!"len={len1},no-second-hello"
     else
       let pos := (e2.findIdx? (· == 44)).getD 999
@@ -462,7 +485,9 @@ def hrrFam (c : Case) : Verdict :=
         else
           match cookieInsert len1 [] with
           | .inserted p => cmp s!"len={len1},pos-forced" (toString pos) (toString p)
-          | _ => .ok s!"len={min len1 6},pos<len-2"
+          | _ =>
+            if e1.contains 41 ∧ e2.getLast? ≠ some 41 then .propFail s!"len={len1},pos={pos}" "pre_shared_key-no-longer-last"
+            else .ok s!"len={min len1 6},pos<len-2{pskT}"
   | _, _, _, _, _ => .bad "hrr: bad fields"
 
 /-! ## connection-level families (C34) -/
